@@ -1,6 +1,195 @@
-(* placeholder while the check is developed; replaced below *)
-From OsmtV.Print Require Import Reader ReaderProofs Quote QuoteProofs SiteProofs.
+(* C17 — printed SMT-LIB reads back to the same object.  Theorems only; proofs are in Print/*.v.
+
+   Reader: Print/Reader.v (an SMT-LIB 2.6 lexer + s-expression reader; std_cfg = the standard, osmt_cfg = opensmt's own
+   lexer as regenerated from smt2newlexer.ll).  Printer models: Print/Quote.v; [faithful] is the working tree (tables and
+   guards regenerated from the source by translate/smt2tokens.py), [pinned] the pinned commit written out, [repaired] the
+   behaviour of /verif/proposed_fixes/C17_*.diff.
+
+   Full statement aimed at:   forall legal s, read_symbol cfg (protectName faithful s false) = Some s        (both cfg)
+   It is FALSE on the pinned code (theorem protect_roundtrip_refuted); proved: the same statement for [repaired], and for
+   [faithful] under the side conditions that name exactly the failing inputs (theorems protect_roundtrip_partial_std and _osmt). *)
+From Coq Require Import String Ascii List Bool.
+From OsmtV.Print Require Import Gen_Tokens Reader ReaderProofs Quote QuoteProofs SiteProofs.
+Import ListNotations.
+Open Scope string_scope.
+
+(* --- the working tree still is the pinned variant (breaks, as intended, when a repair is applied: then the theorems
+       about [pinned] below describe the past and the ones about [repaired] the present) --- *)
+Theorem model_is_pinned_code : faithful = pinned.
+Proof. reflexivity. Qed.
+Print Assumptions model_is_pinned_code.
+
+(* --- the reader accepts exactly the reference spelling of every legal name --- *)
+Theorem quote_symbol_roundtrip : forall cfg s, cfg_ok cfg -> legal_symbol s ->
+  read_symbol cfg (quote_symbol cfg s) = Some s.
+Proof. exact ReaderProofs.quote_symbol_roundtrip. Qed.
+Print Assumptions quote_symbol_roundtrip.
+
+Theorem reader_configurations_ok : cfg_ok std_cfg /\ cfg_ok osmt_cfg.
+Proof. split; [exact std_cfg_ok | exact osmt_cfg_ok]. Qed.
+Print Assumptions reader_configurations_ok.
+
+(* --- Logic::protectName --- *)
+Theorem protect_roundtrip_partial_std : forall s,
+  legal_symbol s -> (s <> EmptyString \/ v_quote_empty faithful = true) ->
+  (In s std_reserved -> In s (v_table faithful)) ->
+  read_symbol std_cfg (protectName faithful s false) = Some s.
+Proof. exact QuoteProofs.protect_roundtrip_partial_std. Qed.
+Print Assumptions protect_roundtrip_partial_std.
+
+Theorem protect_roundtrip_partial_osmt : forall s,
+  legal_symbol s -> (s <> EmptyString \/ v_quote_empty faithful = true) ->
+  (In s gen_lexer_reserved -> In s (v_table faithful)) ->
+  (neg_numlike s = false \/ v_quote_minus_digit faithful = true) ->
+  read_symbol osmt_cfg (protectName faithful s false) = Some s.
+Proof. exact QuoteProofs.protect_roundtrip_partial_osmt. Qed.
+Print Assumptions protect_roundtrip_partial_osmt.
+
+Theorem protect_roundtrip_refuted :
+  (* reserved words the table lacks *)
+  (roundtrip_fails std_cfg pinned "_" /\ roundtrip_fails osmt_cfg pinned "_"
+   /\ roundtrip_fails std_cfg pinned "!" /\ roundtrip_fails osmt_cfg pinned "DECIMAL"
+   /\ roundtrip_fails std_cfg pinned "match" /\ roundtrip_fails std_cfg pinned "check-sat-assuming")
+  (* names opensmt's lexer takes for numbers *)
+  /\ (roundtrip_fails osmt_cfg pinned "-5" /\ roundtrip_fails osmt_cfg pinned "-1/3" /\ roundtrip_fails osmt_cfg pinned "-0.5")
+  (* the empty name *)
+  /\ (roundtrip_fails std_cfg pinned "" /\ roundtrip_fails osmt_cfg pinned "").
+Proof.
+  split; [exact protect_roundtrip_refuted_reserved|].
+  split; [exact protect_roundtrip_refuted_numlike | exact protect_roundtrip_refuted_empty].
+Qed.
+Print Assumptions protect_roundtrip_refuted.
+
+Theorem protect_repaired_roundtrip : forall s, legal_symbol s ->
+  read_symbol std_cfg (protectName repaired s false) = Some s /\
+  read_symbol osmt_cfg (protectName repaired s false) = Some s.
+Proof. intros s H; split; [exact (protect_repaired_roundtrip_std s H) | exact (protect_repaired_roundtrip_osmt s H)]. Qed.
+Print Assumptions protect_repaired_roundtrip.
+
 Theorem protect_injective : forall v s1 s2 i1 i2,
   legal_symbol s1 -> legal_symbol s2 -> protectName v s1 i1 = protectName v s2 i2 -> s1 = s2.
 Proof. exact QuoteProofs.protect_injective. Qed.
 Print Assumptions protect_injective.
+
+Theorem protect_injective_illegal_refuted : exists s1 s2,
+  s1 <> s2 /\ protectName pinned s1 false = protectName pinned s2 false.
+Proof. exact QuoteProofs.protect_injective_illegal_refuted. Qed.
+Print Assumptions protect_injective_illegal_refuted.
+
+(* --- Logic::disambiguateName --- *)
+Theorem disambiguation_refuted : exists env d1 d2,
+  In d1 env /\ In d2 env /\ d1 <> d2 /\ legal_symbol (sd_name d1) /\
+  print_term pinned env (TApp d1 []) = print_term pinned env (TApp d2 []).
+Proof. exact SiteProofs.disambiguation_refuted. Qed.
+Print Assumptions disambiguation_refuted.
+
+Theorem disambiguation_repaired : forall env d,
+  legal_symbol (sd_name d) -> nonempty (sd_name d) = true -> sd_interp d = false -> sd_nullary d = true ->
+  is_ambiguous env (sd_name d) = true ->
+  symToString repaired env d =
+  "(as " ++ protectName repaired (sd_name d) false ++ " " ++ sortToString repaired (sd_ret d) ++ ")".
+Proof. exact SiteProofs.disambiguation_repaired. Qed.
+Print Assumptions disambiguation_repaired.
+
+(* --- formal parameters of printed definitions --- *)
+Theorem formal_arg_fresh_refuted : exists user d,
+  In d user /\
+  let df := default_definition pinned d in
+  resolve_clashes pinned user [(d, df)] = Some [df] /\ ~ params_fresh user df.
+Proof. exact SiteProofs.formal_arg_fresh_refuted. Qed.
+Print Assumptions formal_arg_fresh_refuted.
+
+Theorem formal_arg_fresh_refuted_builder : exists user d,
+  In d user /\
+  let df := fst (builder_definition pinned d 0) in
+  resolve_clashes pinned user [(d, df)] = Some [df] /\ ~ params_fresh user df.
+Proof. exact SiteProofs.formal_arg_fresh_refuted_builder. Qed.
+Print Assumptions formal_arg_fresh_refuted_builder.
+
+Theorem formal_arg_fresh_repaired : forall user fs,
+  exists l, resolve_clashes repaired user fs = Some l /\ Forall (params_fresh user) l.
+Proof.
+  intros user fs. destruct (resolve_clashes repaired user fs) as [l|] eqn:E.
+  - exists l. split; [reflexivity | exact (resolve_repaired_fresh user fs l E)].
+  - exfalso. exact (resolve_repaired_total user fs E).
+Qed.
+Print Assumptions formal_arg_fresh_repaired.
+
+(* --- get-assignment --- *)
+Theorem assignment_refuted :
+  (assignment_text pinned [] = FmtOut ")" /\ read_sexps std_cfg ")" = None)
+  /\ (exists t, assignment_text pinned [("a b", "true")] = FmtOut t /\ ~ reads_as std_cfg t (SList [SList [sym_tok "a b"; sym_tok "true"]]))
+  /\ (exists t, assignment_text pinned [("a%sb", "true")] = FmtUB t).
+Proof.
+  split; [exact assignment_empty_refuted|]. destruct assignment_names_refuted as (A & B & _). split; assumption.
+Qed.
+Print Assumptions assignment_refuted.
+
+Theorem assignment_repaired_examples :
+  (assignment_text repaired [] = FmtOut "()" /\ read_sexps std_cfg "()" = Some [SList []])
+  /\ (exists t, assignment_text repaired [("a b", "true"); ("a%sb", "false"); ("let", "true")] = FmtOut t /\
+                reads_as std_cfg t (SList [SList [sym_tok "a b"; sym_tok "true"]; SList [sym_tok "a%sb"; sym_tok "false"];
+                                           SList [sym_tok "let"; sym_tok "true"]])).
+Proof. split; [exact assignment_empty_repaired | exact assignment_names_repaired_examples]. Qed.
+Print Assumptions assignment_repaired_examples.
+
+(* --- get-value: the echo of the request --- *)
+Theorem echo_roundtrip_refuted :
+  ~ echo_ok std_cfg pinned (A_app (H_sym "f") [A_sym "a b"])
+  /\ ~ echo_ok osmt_cfg pinned (A_app (H_sym "f") [A_sym "a b"])
+  /\ ~ echo_ok std_cfg pinned (A_sym "let")
+  /\ ~ echo_ok std_cfg pinned (A_bang (A_sym "p") "n")
+  /\ snd (echo pinned (A_app (H_sym "f") [A_as "c" U])) = true.
+Proof. exact SiteProofs.echo_roundtrip_refuted. Qed.
+Print Assumptions echo_roundtrip_refuted.
+
+Theorem echo_repaired_examples :
+  echo_ok std_cfg repaired (A_app (H_sym "f") [A_sym "a b"; A_as "c" U; A_const "12"; A_const "0.5"])
+  /\ echo_ok osmt_cfg repaired (A_app (H_sym "f") [A_sym "a b"; A_as "c" U; A_const "12"])
+  /\ echo_ok std_cfg repaired (A_bang (A_app (H_sym "g h") [A_sym "let"; A_sym "_"]) "n 1")
+  /\ echo_ok std_cfg repaired (A_let [("x y", A_sym "12"); ("z", A_app (H_sym "+") [A_const "1"; A_sym "-5"])] (A_app (H_sym "f") [A_sym "x y"; A_sym "z"])).
+Proof. exact SiteProofs.echo_repaired_examples. Qed.
+Print Assumptions echo_repaired_examples.
+
+(* --- unsat-core labels, sort names, default definitions --- *)
+Theorem raw_name_sites_refuted :
+  ~ reads_as std_cfg (core_names_text pinned ["n 1"; "let"]) (SList [sym_tok "n 1"; sym_tok "let"])
+  /\ ~ reads_as std_cfg (sortToString pinned (Sort "S T" [])) (sort_sexp (Sort "S T" []))
+  /\ read_symbol std_cfg (df_name (default_definition pinned (usym "unused fn" [U] U))) <> Some "unused fn".
+Proof. split; [exact core_names_refuted | split; [exact sort_name_refuted | exact default_definition_name_refuted]]. Qed.
+Print Assumptions raw_name_sites_refuted.
+
+Theorem raw_name_sites_repaired :
+  (forall n, legal_symbol n -> read_symbol std_cfg (sortToString repaired (Sort n [])) = Some n)
+  /\ (forall d, legal_symbol (sd_name d) -> sd_interp d = false ->
+        read_symbol std_cfg (df_name (default_definition repaired d)) = Some (sd_name d))
+  /\ reads_as std_cfg (core_names_text repaired ["n 1"; "let"; "n3"]) (SList [sym_tok "n 1"; sym_tok "let"; sym_tok "n3"]).
+Proof. split; [exact sort_name_repaired | split; [exact default_definition_name_repaired | exact core_names_repaired_example]]. Qed.
+Print Assumptions raw_name_sites_repaired.
+
+(* --- non-vacuity: the hypotheses are satisfiable by non-trivial values --- *)
+Example legal_names : legal_symbol "a b" /\ legal_symbol "let" /\ legal_symbol "12" /\ legal_symbol "x!0"
+  /\ legal_symbol (String (ascii_of_nat 10) "(;" ++ String (ascii_of_nat 34) (String (ascii_of_nat 233) "")) /\ legal_symbol "".
+Proof. repeat split; vm_compute; reflexivity. Qed.
+
+Example partial_hypotheses_hold :
+  ("a b" <> "" /\ (In "a b" std_reserved -> In "a b" (v_table faithful)))
+  /\ ("let" <> "" /\ (In "let" std_reserved -> In "let" (v_table faithful)))
+  /\ neg_numlike "-x" = false.
+Proof.
+  split; [split; [discriminate|]|split; [split; [discriminate|]|reflexivity]].
+  - intros H. exfalso. revert H. apply mem_str_In_false. vm_compute. reflexivity.
+  - intros _. apply mem_str_In. vm_compute. reflexivity.
+Qed.
+
+Example printed_examples :
+  protectName faithful "a b" false = "|a b|" /\ protectName faithful "let" false = "|let|"
+  /\ protectName faithful "12" false = "|12|" /\ protectName faithful "x!0" false = "x!0"
+  /\ protectName pinned "_" false = "_" /\ protectName repaired "_" false = "|_|"
+  /\ protectName repaired "" false = "||" /\ protectName repaired "-5" false = "|-5|"
+  /\ protectName faithful "and" true = "and".
+Proof. repeat split; vm_compute; reflexivity. Qed.
+
+Example ambiguous_env_exists :
+  is_ambiguous [usym "a b" [] U; usym "a b" [] B] "a b" = true.
+Proof. reflexivity. Qed.
